@@ -660,6 +660,24 @@ func (im *Impl) Exec(line string) (out []string) {
 			out = append(out, fmt.Sprintf("chain %d %s", bi, strings.Join(bs, " | ")))
 		}
 		return out
+	case "dumpphys":
+		if im.DB == nil {
+			return []string{"mem closed"}
+		}
+		idx, err := pogreb.VerifIndexDump(im.DB)
+		if err != nil {
+			return []string{"dumpphys err " + err.Error()}
+		}
+		var free []string
+		for _, o := range idx.Free {
+			free = append(free, fmt.Sprint(o))
+		}
+		img := func(name string) string {
+			data, _ := im.FS.ReadFile(im.Dir + "/" + name)
+			return fmt.Sprintf("%d:%x", len(data), md5.Sum(data))
+		}
+		return []string{fmt.Sprintf("phys %d %d %d %d free=%s main=%s over=%s", idx.Level, idx.Split, idx.NumBuckets, idx.NumKeys,
+			strings.Join(free, ","), img("main.pix"), img("overflow.pix"))}
 	case "crash":
 		i, c := atoi(f[1]), atoi(f[2])
 		raw := im.rawIndex(i)
